@@ -268,7 +268,9 @@ def add_variants(draw, case):
         n_el = len(case['chain']) + 1
         kinds = {'inertia_moment': 'InertiaMoment', 'no_load_speed': 'AngularSpeed', 'maximum_torque': 'Torque',
                  'no_load_electric_current': 'Current', 'maximum_electric_current': 'Current',
-                 'module': 'Length', 'face_width': 'Length', 'elastic_modulus': 'Stress', 'reference_diameter': 'Length'}
+                 'face_width': 'Length', 'elastic_modulus': 'Stress', 'reference_diameter': 'Length'}
+        # (not the module: it takes part in compatibility checks when a mating is declared again, and a value re-expressed
+        # into the partner's unit may sit an ulp away where comparisons are exact; C09 and C10 re-express it under control)
         rx = []
         for _ in range(draw(st.integers(1, 3))):
             a_ = draw(st.sampled_from(sorted(kinds)))
